@@ -217,7 +217,33 @@ def check(ctx):
     ctx.ob('C16.R2.promotion-letters', 'uci~parse_uci', okp,
            'the promotion letter printed for N,B,R,Q (table %r indexed by PieceKind) is mapped back to the same kind by '
            'parse_uci, in both cases' % promos, site=pu.loc())
-    # str.size() > 4 guard on the switch, and NO_PIECE_KIND default
+    # the promotion letter is read for every string uci() prints with one: a promotion is made by a pawn of the side to move
+    # leaving its seventh rank (rank 7 for White, rank 2 for Black) and is printed with five characters. The conditions that
+    # govern the letter switch are evaluated in both models and must let it through.
+    from rules.norm import Norm as _Nm, cond_value as _cv, Unknown as _Unk
+    from rules.common import all_guards as _ag
+    sws = [n for n in pu.all_nodes() if n['k'] == 'SwitchStmt']
+    ctx.floor('C16.R2.promotion-guard', len(sws), 1, 'switch statements in parse_uci')
+    RKs = p.enum('engine::Rank')
+    PCs = p.enum('engine::Piece')
+    for sw in sws:
+        bad_m = None
+        for sd, rk7, pawn in ((0, RKs['RANK_7'], PCs['W_PAWN']), (1, RKs['RANK_2'], PCs['B_PAWN'])):
+            nmu = _Nm(pu, keep=('from', 'to'))
+            val = {'str.size()': 5, 'str.length()': 5, 'rank(from)': rk7, 'rank(to)': RKs['RANK_8'] if sd == 0 else RKs['RANK_1'],
+                   '_board[from]': pawn, 'piece_at(from)': pawn, '_current_side': sd, 'color()': sd,
+                   'make_piece_kind(_board[from])': pk['PAWN'], 'get_piece_kind(_board[from])': pk['PAWN'],
+                   'make_piece_kind(piece_at(from))': pk['PAWN'], 'get_piece_kind(piece_at(from))': pk['PAWN']}
+            nmu.val = val
+            try:
+                for c, t in _ag(pu, sw):
+                    if _cv(nmu, c, val) != t and bad_m is None:
+                        bad_m = '%s promotion: `%s` is %s' % ('White' if sd == 0 else 'Black', nmu.show_cond(c), not t)
+            except _Unk as u:
+                raise AnalysisBroken('C16: the promotion letter of parse_uci is read under a condition on `%s`, which the rule does not model' % u)
+        ctx.ob('C16.R2.promotion-guard', 'parse_uci', bad_m is None,
+               'the promotion letter is read for every five-character move a promoting pawn of either colour produces%s'
+               % ('' if bad_m is None else ' — not for a ' + bad_m), site=pu.loc(sw))
     # castling spellings
     spell = {}
     for n in uci.all_nodes():
